@@ -12,6 +12,9 @@ RULES = {
     "R19.2": "no other writers: outside migrate every write to either map is one half of such a pair",
     "R19.3": "views: Allowance reads ALLOWANCES[(owner, spender)]; AllAllowances ranges over ALLOWANCES.prefix(owner) and "
              "AllSpenderAllowances over ALLOWANCES_SPENDER.prefix(spender), each copying allowance/expires field-for-field",
+    "R19.5": "the rebuild gate compares versions as versions: the decision that guards the rebuild is `stored < parsed` on "
+             "semver::Version values (the stored contract version against a parsed literal), not a comparison of strings; which "
+             "literal it is remains a runtime matter",
     "R19.4": "migrate rebuilds the spender map by iterating the whole owner map and saving [(spender, owner)] := allowance",
 }
 
@@ -105,6 +108,21 @@ def check_migrate(ctx, p, a, b, ALW, ALWS):
                    detail="the rebuild loop has an iteration that takes an (owner, spender) entry and saves nothing to the spender map "
                           "(decisions on that iteration: %s): the entry stays visible to Allowance / AllAllowances but not to "
                           "AllSpenderAllowances" % skip[:3], sample={"saved": len(saved)})
+    if b:
+        gate = None
+        first = min(p.effects.index(f) for f in b)
+        for c in p.conds:
+            if c[0][0] == "cmp" and c[0][1] in ("lt", "le") and c[1] is True and c[3] <= first:
+                gate = c[0]
+        good = False
+        if gate is not None:
+            lhs, rhs = gate[2], gate[3]
+            parsed = rhs[0] == "vfield" and rhs[1][0] == "call" and rhs[1][1].endswith("::parse")
+            stored = any(x[0] == "call" and "ensure_from_older_version" in x[1] or (x[0] == "call" and "get_contract_version" in x[1]) for x in walk(lhs))
+            good = parsed and stored and not any(x[0] == "call" and x[1].endswith(("as_str", "to_string")) for x in walk(lhs))
+        ctx.ob("R19.5", key + "/rebuild gate", good, sites=[b[0].site],
+               detail="the rebuild of the spender index is gated by %s, which is not `stored semver version < parsed semver literal`"
+                      % (show(gate)[:200] if gate else "no version decision"), sample={"gate": show(gate)[:160] if gate else None})
     if not b:
         return
     for f in b:
@@ -167,9 +185,24 @@ def check_queries(ctx, eps, ALW, ALWS):
             def validated(x, src):
                 return x[0] == "vfield" and x[2] == "Ok" and x[1][0] == "call" and x[1][1].endswith("addr_validate") and x[1][2][-1] == src
             good = k[0] == "tuple" and len(k[1]) == 2 and validated(k[1][0], o) and validated(k[1][1], s)
-            # the response is the loaded entry (or default)
+            # the response is the loaded entry whenever one is stored (default only when absent): no filtering in between
             r = p.ret
-            good = good and any(x[0] == "may_load" and x[1] == ALW for x in walk(r))
+            ml = [x for x in walk(r) if x[0] == "may_load" and x[1] == ALW]
+            opt = ("vfield", ml[0], "Ok", "0") if ml else None
+            pres = [c[1] for c in p.conds if c[0] == opt]
+            if opt is None:
+                # the entry may have been decided present/absent by a branch: find it in the conditions
+                for c in p.conds:
+                    if c[0][0] == "vfield" and c[0][2] == "Ok" and c[0][1][0] == "may_load" and c[0][1][1] == ALW and isinstance(c[1], str):
+                        opt, pres = c[0], [c[1]]
+            if opt is None:
+                good = False
+            elif pres == ["Some"]:
+                good = good and r == ("call", "cosmwasm_std::to_json_binary", (("vfield", opt, "Some", "0"),))
+            elif pres == ["None"]:
+                good = good
+            else:
+                good = good and r == ("call", "cosmwasm_std::to_json_binary", (("unwrap_or", opt, ("default", "?")),))
         ctx.ob("R19.3", "query/Allowance", good, sites=[e.site for e in reads],
                detail="Allowance query does not return ALLOWANCES[(validated owner, validated spender)]",
                sample={"reads": [repr(e)[:200] for e in reads]})
